@@ -273,6 +273,8 @@ type poolDef struct {
 	// afterDelete: every set is built with each further pool pattern registered (GET) and deleted
 	// again; only those routers are evaluated
 	afterDelete bool
+	// methods, when set, replaces the three default request methods for this pool
+	methods []string
 }
 
 func pools(quick bool) []poolDef {
@@ -316,7 +318,8 @@ func pools(quick bool) []poolDef {
 	optPats := []string{"/a", "/a/", "/{p0}", "/{p0}/", "/a/b", "/a/b/", "/*{c0}", "/*{c0}/"}
 	allOpts := []int{rsx.SlashNone, rsx.SlashIgnore, rsx.SlashRedirect, rsx.SlashIgnoreThenRedirectOff, rsx.SlashRedirectThenIgnoreOff, rsx.SlashBothOff, rsx.SlashRedirectOff, rsx.SlashIgnoreOff}
 	for _, pf := range []int{rsx.SlashNone, rsx.SlashIgnore, rsx.SlashRedirect} {
-		ps = append(ps, poolDef{name: fmt.Sprintf("option-lists-global%d", pf), patterns: optPats, paths: rsx.GenPaths([]string{"a", "b"}, 2), hosts: []string{""}, k: 2, opts: allOpts, prof: rsx.Profile{Slash: pf}})
+		ps = append(ps, poolDef{name: fmt.Sprintf("option-lists-global%d", pf), patterns: optPats, paths: rsx.GenPaths([]string{"a", "b"}, 2), hosts: []string{""}, k: 2, opts: allOpts, prof: rsx.Profile{Slash: pf},
+			methods: []string{"GET", "HEAD", "POST", "CONNECT", "FOO"}})
 	}
 	if !quick {
 		core := append([]string{"/"}, rsx.GenPatterns([]string{"a", "{}", "*{}"}, 2, true, "")...)
@@ -326,6 +329,11 @@ func pools(quick bool) []poolDef {
 }
 
 func runPool(c *mc.Ctx, r *mc.Result, pd poolDef) {
+	if pd.methods != nil {
+		saved := methods
+		methods = pd.methods
+		defer func() { methods = saved }()
+	}
 	// specs: pattern x {none, ignore, redirect}
 	var specs []rsx.RouteSpec
 	if pd.opts == nil {
